@@ -130,11 +130,30 @@ class Engine:
         import copy
         idx = self.by_vendor[vendor]
         a = self.corpus[idx[ch.draw(len(idx), "sample")]]
-        mode = ch.weighted([(3, "fwd"), (3, "rev"), (2, "cross"), (2, "mutated")], "state-mode")
+        mode = ch.weighted([(3, "fwd"), (3, "rev"), (2, "cross"), (2, "mutated"), (1, "renest")], "state-mode")
         if mode == "fwd":
             return a["name"] + " fwd", copy.deepcopy(a["old"]), copy.deepcopy(a["new"])
         if mode == "rev":
             return a["name"] + " rev", copy.deepcopy(a["new"]), copy.deepcopy(a["old"])
+        if mode == "renest":
+            # same lines in the same order, only the nesting differs: the last child of a block becomes its sibling
+            from collections import OrderedDict as odict
+            old = copy.deepcopy(a["old"] if ch.draw(2, "renest-side") else a["new"])
+            blocks = [r for r, sub in old.items() if sub]
+            if blocks:
+                pick = blocks[ch.draw(len(blocks), "renest-block")]
+                new = odict()
+                for row, sub in old.items():
+                    if row == pick:
+                        kept = odict(list(sub.items())[:-1])
+                        last_row, last_sub = list(sub.items())[-1]
+                        new[row] = kept
+                        if last_row not in old:
+                            new[last_row] = copy.deepcopy(last_sub)
+                    elif row not in new:
+                        new[row] = copy.deepcopy(sub)
+                return a["name"] + " renest", old, new
+            return a["name"] + " fwd", copy.deepcopy(a["old"]), copy.deepcopy(a["new"])
         b = self.corpus[idx[ch.draw(len(idx), "sample2")]]
         if mode == "cross":
             side = ch.draw(4, "cross-side")
